@@ -77,6 +77,13 @@ func (m *c05Mon) after(h *H, s *step) {
 		if at, dup := m.everIssued[s.NewID]; dup {
 			c.Violation("session-id-repeated", "session id issued at step #%d was already issued at step #%d", s.N, at)
 		}
+		// "tokens are only ever stored under identifiers the service itself issued" - and got there through a login:
+		// the identifier just issued names a session that holds no tokens yet (peek below the spy)
+		if s.NewID != "" && !faulted {
+			if t, _ := w.Store.Inner.GetTokenResponse(context.Background(), s.NewID); t != nil {
+				c.Violation("fresh-session-holds-tokens", "the session id issued by the login redirect at step #%d already holds tokens (id token %s) although nothing was written under it", s.N, short(t.IDToken, 24))
+			}
+		}
 		// whatever was stored under the presented id must be gone (peek below the spy)
 		if len(s.Presented) == 1 && !faulted {
 			old := s.Presented[0]
